@@ -20,7 +20,7 @@ TABLE = {
     'C04': ('model checking + trace validation of lane facts',
             'Bitwise ops, shifts 0..W in three call forms and rotations by any amount: byte-limb semantics model-checked against multiply/divide by 2^s; recorded lane results judged by TLC for every amount and every compile-time S; per-lane amount vectors all different, uniform and periodic. The register programs of the composed machine (Avel.tla, validated by TraceAvel.tla) are run as well; this check gives a verdict on the steps this property owns.', '7 C04'),
     'C05': ('model checking + trace validation (relation by postcondition)',
-            'DivRel (q*y+r=x, |r|<|y|, sign rules) is model-checked to have exactly the C++ truncating solution at 8 bits; recorded (q,r) of div, / %, /= %= are accepted by postcondition; zero divisors are placed in every lane and must neither trap nor disturb other lanes; a directed search over millions of structured pairs (quotients next to exact multiples of full-width divisors) is screened natively and every flagged pair is judged by TLC.', '7 C05'),
+            'DivRel (q*y+r=x, |r|<|y|, sign rules) is model-checked to have exactly the C++ truncating solution at 8 bits; recorded (q,r) of div, / %, /= %= are accepted by postcondition; zero divisors are placed in every lane and must neither trap nor disturb other lanes; a directed search over millions of structured pairs (quotients next to exact multiples of full-width divisors) is screened natively and every flagged pair is judged by TLC; division of computed operands (zero lanes included) is a step of the composed machine (Avel!VDiv, validated by TraceAvel.tla).', '7 C05'),
     'C06': ('model checking + trace validation of lane facts',
             'Bit-counting functions: operational byte forms model-checked against set-of-bits definitions for all 8/16-bit values; recorded lane and scalar-overload results judged by TLC. The register programs of the composed machine (Avel.tla, validated by TraceAvel.tla) are run as well; this check gives a verdict on the steps this property owns.', '7 C06'),
     'C07': ('model checking + trace validation of lane facts',
